@@ -23,7 +23,7 @@ import Gotree.Model.C13Codec
 namespace Gotree.Driver.C13
 open Gotree Gotree.Driver Gotree.C13
 
-def env : Env := ⟨c01Go, decCodec⟩
+def env : Env := ⟨c01Go, goNum⟩
 
 def parseOut (kind dump : String) : Option Out :=
   match kind with
@@ -204,7 +204,7 @@ def modelText (fmt : String) (ts : List T) : Txt :=
   | "nexus" => writeNexus c01Go false its
   | "nexustr" => writeNexus c01Go true its
   | "nexus1" => (match ts with | t :: _ => treeNexus c01Go t | [] => [])
-  | _ => Px.render decCodec ts
+  | _ => Px.render goNum ts
 
 /-- compare the model's readers with the implementation's on one document; returns extra tags or a verdict -/
 def tieReaders (doc : Doc) (mrecs : List Rec) (first : Option Out) (tags : List String) : Verdict :=
@@ -228,6 +228,8 @@ def handle (op : String) (f : List String) : Verdict :=
       let isNexus := fmt == "nexus" || fmt == "nexustr" || fmt == "nexus1"
       let wf := WF13list ts
       let hyp := wf && (!isNexus || sameTaxa ts)
+      -- open finding F60: a repeated node name under a translate table
+      let f60 := isF60 (fmt == "nexustr") ts mrecs
       let lawPW := ts.all fun t => match c01Go.parse (c01Go.write t) with
         | some u => sameKept u t
         | none => false
@@ -239,7 +241,7 @@ def handle (op : String) (f : List String) : Verdict :=
           (writtenList (enumFrom 0 ts) {}).all (fun w =>
             (match c01Go.parse (c01Go.write w.2) with | some u => sameKept u w.2 | none => false) &&
             treeTextOK (c01Go.write w.2))) "hyp-nexus-roundtrip-translate" ++
-        tagIf (isNexus && ts.all namesOK) "names-ok" ++
+        tagIf (isNexus && ts.all innerNamesDistinct) "inner-names-distinct" ++
         tagIf (fmt == "phyloxml" && ts.all (pxOK fun _ => true)) "hyp-phyloxml-roundtrip" ++
         [fmt, via] ++ tagIf wf "wf13" ++ tagIf (sameTaxa ts) "sametaxa" ++ tagIf hyp "hyp" ++
         tagIf (ts.length ≥ 2) "nontrivial" ++ treeTags ts
@@ -247,7 +249,8 @@ def handle (op : String) (f : List String) : Verdict :=
       if firstS.startsWith "panic" || wres.startsWith "panic" then ⟨.oracle, tags, "panic: " ++ wres ++ " " ++ firstS⟩
       else if hyp && wres != "ok" then ⟨.oracle, tags, "writer failed on well-formed trees"⟩
       else if hyp && !(recsAre (if fmt == "nexus1" then ts.take 1 else ts) mrecs 0) then
-        ⟨.oracle, tags, "conversion chain: the trees read back differ from the trees written (shape/names/lengths/supports), or a tree is missing"⟩
+        ⟨.oracle, tagIf f60 "f60-region" ++ tags, (if f60 then "class=NexusTranslateDuplicateNodeNames " else "") ++
+          "conversion chain: the trees read back differ from the trees written (shape/names/lengths/supports), or a tree is missing"⟩
       else if isNexus && fmt != "nexus1" && wres == "ok" && ts.all (fun t => t.tipNames.all labelOK) && !(taxaBlockOK ts text) then
         ⟨.oracle, tags, "Nexus taxa block: TAXLABELS / NTAX are not the tips of all the trees"⟩
       else if first.isSome && !(firstIsHead (first.getD .err) mrecs) then
@@ -258,9 +261,9 @@ def handle (op : String) (f : List String) : Verdict :=
         let mtext := modelText fmt ts
         let tags := tagIf (mtext == text) "text-eq" ++ tags
         let xtag := match fmt, xdoc with
-          | "phyloxml", some x => tagIf (xmlEq (dropRootAttrs x) (Px.encode decCodec ts)) "xml-eq"
+          | "phyloxml", some x => tagIf (xmlEq (dropRootAttrs x) (Px.encode goNum ts)) "xml-eq"
           | _, _ => []
-        match docOf fmt text xdoc, docOf fmt mtext (some (Px.encode decCodec ts)) with
+        match docOf fmt text xdoc, docOf fmt mtext (some (Px.encode goNum ts)) with
         | some d, some dm =>
           (match tieReaders d mrecs first (xtag ++ tags) with
            | ⟨.pass, tg, _⟩ =>
